@@ -44,30 +44,43 @@ class Sem:
         self.labels = 0
 
     def expr(self, d):
+        return self.expr_k(d)[0]
+
+    def expr_k(self, d):
+        """(text, kind): kind is 'atom', 'assign' (top level is an assignment or a comma-free ternary: needs parentheses as an
+        operand to stay valid C) or 'other'"""
         r = self.r
         if d <= 0 or r.random() < 0.25:
-            return r.choice(INT_ATOMS)
+            return r.choice(INT_ATOMS), "atom"
         k = r.randint(0, 11)
         if k <= 4:
-            return f"{self.op(d - 1)} {r.choice(BIN)} {self.op(d - 1)}"
+            return f"{self.op(d - 1)} {r.choice(BIN)} {self.op(d - 1)}", "other"
         if k == 5:
-            return f"{self.op(d - 1)} {r.choice(DIVS)} ({self.op(d - 1)} | 1)"
+            return f"{self.op(d - 1)} {r.choice(DIVS)} ({self.op(d - 1)} | 1)", "other"
         if k == 6:
-            return f"{self.op(d - 1)} ? {self.expr(d - 1)} : {self.op(d - 1)}"
+            return f"{self.op(d - 1)} ? {self.expr(d - 1)} : {self.op(d - 1)}", "assign"
         if k == 7:
-            return f"{r.choice(['-', '~', '!', '+'])}{self.op(d - 1)}"
+            return f"{r.choice(['-', '~', '!', '+'])} {self.op(d - 1, unary=True)}", "other"
         if k == 8:
-            return f"{r.choice(INT_LVALUES)}{r.choice(['++', '--'])}"
+            return f"{r.choice(INT_LVALUES)}{r.choice(['++', '--'])}", "other"
         if k == 9:
-            return f"{r.choice(['++', '--'])}{r.choice(INT_LVALUES)}"
+            return f"{r.choice(['++', '--'])}{r.choice(INT_LVALUES)}", "other"
         if k == 10:
-            return f"({r.choice(['long', 'unsigned', 'char', 'T', 'UL'])}) {self.op(d - 1)}"
-        return f"{r.choice(INT_LVALUES)} {r.choice(ASSIGN)} {self.expr(d - 1)}"
+            return f"({r.choice(['long', 'unsigned', 'char', 'T', 'UL'])}) {self.op(d - 1, unary=True)}", "other"
+        return f"{r.choice(INT_LVALUES)} {r.choice(ASSIGN)} {self.expr(d - 1)}", "assign"
 
-    def op(self, d):
-        """an operand: parenthesised unless atomic (keeps the program's meaning independent of my own precedence knowledge)"""
-        e = self.expr(d)
-        return e if e in INT_ATOMS else f"({e})"
+    def op(self, d, unary=False):
+        """an operand.  Atoms stay bare; assignments and conditionals are parenthesised (they are not valid operands otherwise);
+        every other operand is left WITHOUT parentheses half of the time, so that the grouping the C compiler sees depends on
+        precedence and associativity - the compiler, not this generator, is the judge of what the text means.  The operand of a
+        prefix operator or cast is parenthesised unless atomic (a binary operand there would change the expression's type
+        validity, e.g. -a = b)."""
+        e, kind = self.expr_k(d)
+        if kind == "atom":
+            return e
+        if kind == "assign" or unary or self.r.random() < 0.5:
+            return f"({e})"
+        return e
 
     def stmt(self, d, in_loop=False, in_switch=False):
         r = self.r
